@@ -31,6 +31,8 @@ type Document struct {
 	parts map[string][]byte
 	// 图片ID计数器，确保每个图片都有唯一的ID
 	nextImageID int
+	// 打开的文档中 styles.xml 关系原有的ID（为空表示使用 rId1）
+	stylesRelationshipID string
 }
 
 // Body 表示文档主体
@@ -2944,7 +2946,7 @@ func (d *Document) serializeDocumentRelationships() {
 	// 获取已存在的关系，从索引1开始（保留给styles.xml）
 	relationships := []Relationship{
 		{
-			ID:     "rId1",
+			ID:     d.stylesRelationshipIDForSave(),
 			Type:   "http://schemas.openxmlformats.org/officeDocument/2006/relationships/styles",
 			Target: "styles.xml",
 		},
@@ -2961,6 +2963,41 @@ func (d *Document) serializeDocumentRelationships() {
 
 	data, _ := xml.MarshalIndent(docRels, "", "  ")
 	d.parts["word/_rels/document.xml.rels"] = append([]byte(xml.Header), data...)
+}
+
+// stylesRelationshipIDForSave 返回 styles.xml 关系使用的ID：
+// 优先使用打开文档时原有的ID，否则为 rId1；若与其他关系冲突则选用未被占用的ID。
+func (d *Document) stylesRelationshipIDForSave() string {
+	used := make(map[string]bool)
+	for _, rel := range d.documentRelationships.Relationships {
+		used[rel.ID] = true
+	}
+	id := d.stylesRelationshipID
+	if id == "" {
+		id = "rId1"
+	}
+	for n := 1; used[id]; n++ {
+		id = fmt.Sprintf("rId%d", n)
+	}
+	return id
+}
+
+// nextDocumentRelationshipID 返回一个尚未被文档级关系使用的关系ID。
+// rId1 保留给 styles.xml；对于新建文档，结果与原来的 len+2 规则相同。
+func (d *Document) nextDocumentRelationshipID() string {
+	used := map[string]bool{"rId1": true}
+	if d.stylesRelationshipID != "" {
+		used[d.stylesRelationshipID] = true
+	}
+	for _, rel := range d.documentRelationships.Relationships {
+		used[rel.ID] = true
+	}
+	for n := len(d.documentRelationships.Relationships) + 2; ; n++ {
+		id := fmt.Sprintf("rId%d", n)
+		if !used[id] {
+			return id
+		}
+	}
 }
 
 // serializeStyles 序列化样式
@@ -3106,6 +3143,9 @@ func (d *Document) parseDocumentRelationships() error {
 	for _, rel := range relationships.Relationships {
 		if rel.Type != "http://schemas.openxmlformats.org/officeDocument/2006/relationships/styles" {
 			filteredRels = append(filteredRels, rel)
+		} else if d.stylesRelationshipID == "" {
+			// 记住原有的ID，保存时原样写回
+			d.stylesRelationshipID = rel.ID
 		}
 	}
 
